@@ -1,4 +1,1072 @@
 import BitstringModel.Model.C04
 import BitstringModel.Proofs.Basic
 namespace BM.C04
+open BM
+
+/-! ### counting lemmas -/
+
+theorem filter_len_zero_iff {α} (p : α → Bool) (l : List α) :
+    (l.filter p).length = 0 ↔ ∀ x ∈ l, p x = false := by
+  induction l with
+  | nil => simp
+  | cons a t ih =>
+    by_cases ha : p a = true
+    · simp [ha]
+    · simp only [Bool.not_eq_true] at ha
+      simp [ha, ih]
+
+theorem idx_eq_of_filter_len_le_one {α} (p : α → Bool) (l : List α) (hl : (l.filter p).length ≤ 1)
+    (i j : Nat) (x y : α) (hi : l[i]? = some x) (hj : l[j]? = some y) (hx : p x = true) (hy : p y = true) :
+    i = j := by
+  induction l generalizing i j with
+  | nil => simp at hi
+  | cons a t ih =>
+    by_cases ha : p a = true
+    · simp only [List.filter_cons, ha, if_true, List.length_cons] at hl
+      have h0 : (t.filter p).length = 0 := by omega
+      rw [filter_len_zero_iff] at h0
+      cases i with
+      | zero =>
+        cases j with
+        | zero => rfl
+        | succ j =>
+          simp only [List.getElem?_cons_succ] at hj
+          have := h0 y (List.mem_of_getElem? hj)
+          simp [hy] at this
+      | succ i =>
+        simp only [List.getElem?_cons_succ] at hi
+        have := h0 x (List.mem_of_getElem? hi)
+        simp [hx] at this
+    · simp only [List.filter_cons, ha] at hl
+      cases i with
+      | zero => simp at hi; subst hi; exact absurd hx ha
+      | succ i =>
+        cases j with
+        | zero => simp at hj; subst hj; exact absurd hy ha
+        | succ j =>
+          simp only [List.getElem?_cons_succ] at hi hj
+          have := ih hl i j hi hj
+          omega
+
+theorem filter_len_eq_one_of_uniq {α} (p : α → Bool) (l : List α) (i : Nat) (x : α)
+    (hi : l[i]? = some x) (hx : p x = true)
+    (hu : ∀ j y, l[j]? = some y → p y = true → j = i) : (l.filter p).length = 1 := by
+  induction l generalizing i with
+  | nil => simp at hi
+  | cons a t ih =>
+    cases i with
+    | zero =>
+      simp at hi; subst hi
+      have h0 : (t.filter p).length = 0 := by
+        rw [filter_len_zero_iff]
+        intro y hy
+        obtain ⟨j, hj⟩ := List.getElem?_of_mem hy
+        by_cases hp : p y = true
+        · have := hu (j + 1) y (by simpa using hj) hp
+          omega
+        · simpa using hp
+      simp [hx, h0]
+    | succ i =>
+      simp only [List.getElem?_cons_succ] at hi
+      have ha : p a = false := by
+        by_cases hp : p a = true
+        · have := hu 0 a (by simp) hp
+          omega
+        · simpa using hp
+      simp only [List.filter_cons, ha]
+      apply ih i hi
+      intro j y hj hy
+      have := hu (j + 1) y (by simpa using hj) hy
+      omega
+
+/-! ### index form of the invariant -/
+
+structure WF (h : Heap) : Prop where
+  objR : ∀ o : Obj, o ∈ h.objs → o.sid < h.stores.length
+  cacheR : ∀ e : String × Nat, e ∈ h.cache → e.2 < h.stores.length
+  cacheImm : ∀ e : String × Nat, e ∈ h.cache → storeImm h e.2 = true
+  extR : ∀ s : Nat, s ∈ h.exts → s < h.stores.length
+  mutUniq : ∀ (i j : Nat) (o o' : Obj), h.objs[i]? = some o → h.objs[j]? = some o' →
+    o.cls.isMutable = true → o'.sid = o.sid → i = j
+  mutCache : ∀ o : Obj, o ∈ h.objs → o.cls.isMutable = true → ∀ e : String × Nat, e ∈ h.cache → e.2 ≠ o.sid
+  mutImm : ∀ o : Obj, o ∈ h.objs → o.cls.isMutable = true → storeImm h o.sid = false
+  objExt : ∀ o : Obj, o ∈ h.objs → ∀ s : Nat, s ∈ h.exts → o.sid ≠ s
+  extCache : ∀ s : Nat, s ∈ h.exts → ∀ e : String × Nat, e ∈ h.cache → e.2 ≠ s
+  extUniq : ∀ (i j s : Nat), h.exts[i]? = some s → h.exts[j]? = some s → i = j
+
+theorem inCache_false_iff (h : Heap) (sid : Nat) : inCache h sid = false ↔ ∀ e ∈ h.cache, e.2 ≠ sid := by
+  simp [inCache, List.any_eq_false]
+
+theorem refCountObjs_zero_iff (h : Heap) (sid : Nat) :
+    refCountObjs h sid = 0 ↔ ∀ o ∈ h.objs, o.sid ≠ sid := by
+  simp [refCountObjs]
+
+theorem refCountExts_zero_iff (h : Heap) (sid : Nat) :
+    refCountExts h sid = 0 ↔ ∀ s ∈ h.exts, s ≠ sid := by
+  simp [refCountExts]
+
+theorem WF.of_inv {h : Heap} (hi : Inv h) : WF h := by
+  obtain ⟨h1, h2, h3, h4, h5⟩ := hi
+  refine ⟨h1, fun e he => (h2 e he).1, fun e he => (h2 e he).2, h3, ?_, ?_, ?_, ?_, ?_, ?_⟩
+  · intro i j o o' hi hj hm hs
+    have := (h4 o (List.mem_of_getElem? hi) hm).1
+    exact idx_eq_of_filter_len_le_one (fun x : Obj => decide (x.sid = o.sid)) h.objs
+      (by unfold refCountObjs at this; omega) i j o o' hi hj (by simp) (by simp [hs])
+  · intro o ho hm
+    exact (inCache_false_iff _ _).1 (h4 o ho hm).2.1
+  · intro o ho hm
+    exact (h4 o ho hm).2.2.2
+  · intro o ho s hs
+    exact (refCountObjs_zero_iff _ _).1 (h5 s hs).1 o ho
+  · intro s hs
+    exact (inCache_false_iff _ _).1 (h5 s hs).2.1
+  · intro i j s hi hj
+    have := (h5 s (List.mem_of_getElem? hi)).2.2
+    exact idx_eq_of_filter_len_le_one (fun x : Nat => decide (x = s)) h.exts
+      (by unfold refCountExts at this; omega) i j s s hi hj (by simp) (by simp)
+
+theorem WF.inv {h : Heap} (w : WF h) : Inv h := by
+  refine ⟨w.objR, fun e he => ⟨w.cacheR e he, w.cacheImm e he⟩, w.extR, ?_, ?_⟩
+  · intro o ho hm
+    refine ⟨?_, (inCache_false_iff _ _).2 (w.mutCache o ho hm), ?_, w.mutImm o ho hm⟩
+    · obtain ⟨i, hi⟩ := List.getElem?_of_mem ho
+      exact filter_len_eq_one_of_uniq (fun x : Obj => decide (x.sid = o.sid)) h.objs i o hi (by simp)
+        (fun j y hj hy => (w.mutUniq i j o y hi hj hm (by simpa using hy)).symm)
+    · exact (refCountExts_zero_iff _ _).2 (fun s hs hso => w.objExt o ho s hs hso.symm)
+  · intro s hs
+    refine ⟨(refCountObjs_zero_iff _ _).2 (fun o ho => w.objExt o ho s hs),
+      (inCache_false_iff _ _).2 (w.extCache s hs), ?_⟩
+    obtain ⟨i, hi⟩ := List.getElem?_of_mem hs
+    exact filter_len_eq_one_of_uniq (fun x : Nat => decide (x = s)) h.exts i s hi (by simp)
+      (fun j y hj hy => by
+        have : y = s := by simpa using hy
+        subst this
+        exact (w.extUniq i j y hi hj).symm)
+
+theorem inv_iff_wf (h : Heap) : Inv h ↔ WF h := ⟨WF.of_inv, WF.inv⟩
+
+
+/-! ### primitives -/
+
+theorem storeImm_congr {h h' : Heap} (hs : h'.stores = h.stores) (x : Nat) :
+    storeImm h' x = storeImm h x := by unfold storeImm; rw [hs]
+
+theorem storeBits_congr {h h' : Heap} (hs : h'.stores = h.stores) (x : Nat) :
+    storeBits h' x = storeBits h x := by unfold storeBits; rw [hs]
+
+theorem storeImm_alloc_old (h : Heap) (s : Store) (x : Nat) (hx : x < h.stores.length) :
+    storeImm (alloc h s).1 x = storeImm h x := by
+  simp [storeImm, alloc, List.getElem?_append_left hx]
+
+theorem storeImm_alloc_new (h : Heap) (s : Store) :
+    storeImm (alloc h s).1 h.stores.length = s.imm := by
+  simp [storeImm, alloc]
+
+theorem storeBits_alloc_old (h : Heap) (s : Store) (x : Nat) (hx : x < h.stores.length) :
+    storeBits (alloc h s).1 x = storeBits h x := by
+  simp [storeBits, alloc, List.getElem?_append_left hx]
+
+theorem storeBits_alloc_new (h : Heap) (s : Store) :
+    storeBits (alloc h s).1 h.stores.length = s.bits := by
+  simp [storeBits, alloc]
+
+theorem setImm_objs (h : Heap) (sid : Nat) : (setImm h sid).objs = h.objs := by
+  unfold setImm; split <;> rfl
+theorem setImm_cache (h : Heap) (sid : Nat) : (setImm h sid).cache = h.cache := by
+  unfold setImm; split <;> rfl
+theorem setImm_exts (h : Heap) (sid : Nat) : (setImm h sid).exts = h.exts := by
+  unfold setImm; split <;> rfl
+theorem setImm_length (h : Heap) (sid : Nat) : (setImm h sid).stores.length = h.stores.length := by
+  unfold setImm; split <;> simp
+
+theorem storeBits_setImm (h : Heap) (sid x : Nat) : storeBits (setImm h sid) x = storeBits h x := by
+  unfold setImm storeBits
+  split
+  · rename_i s hs
+    have hl := (List.getElem?_eq_some_iff.1 hs).1
+    by_cases hx : sid = x
+    · subst hx; simp [hs, List.getElem?_set_self hl]
+    · simp [List.getElem?_set_ne hx]
+  · rfl
+
+theorem storeImm_setImm_ne (h : Heap) (sid x : Nat) (hx : x ≠ sid) :
+    storeImm (setImm h sid) x = storeImm h x := by
+  unfold setImm storeImm
+  split
+  · simp [List.getElem?_set_ne (Ne.symm hx)]
+  · rfl
+
+theorem storeImm_setImm_self (h : Heap) (sid : Nat) (hs : sid < h.stores.length) :
+    storeImm (setImm h sid) sid = true := by
+  unfold setImm storeImm
+  split
+  · simp [hs]
+  · rename_i hn; simp at hn; omega
+
+theorem storeImm_setImm_mono (h : Heap) (sid x : Nat) (hx : storeImm h x = true) :
+    storeImm (setImm h sid) x = true := by
+  by_cases hxs : x = sid
+  · subst hxs
+    apply storeImm_setImm_self
+    unfold storeImm at hx
+    by_contra hc
+    simp [List.getElem?_eq_none (Nat.le_of_not_lt hc)] at hx
+  · rw [storeImm_setImm_ne h sid x hxs]; exact hx
+
+theorem writeStore_objs (h : Heap) (sid : Nat) (g : Bits → Bits) : (writeStore h sid g).objs = h.objs := by
+  unfold writeStore; split <;> rfl
+theorem writeStore_cache (h : Heap) (sid : Nat) (g : Bits → Bits) : (writeStore h sid g).cache = h.cache := by
+  unfold writeStore; split <;> rfl
+theorem writeStore_exts (h : Heap) (sid : Nat) (g : Bits → Bits) : (writeStore h sid g).exts = h.exts := by
+  unfold writeStore; split <;> rfl
+theorem writeStore_length (h : Heap) (sid : Nat) (g : Bits → Bits) :
+    (writeStore h sid g).stores.length = h.stores.length := by
+  unfold writeStore; split <;> simp
+
+theorem storeImm_writeStore (h : Heap) (sid : Nat) (g : Bits → Bits) (x : Nat) :
+    storeImm (writeStore h sid g) x = storeImm h x := by
+  unfold writeStore storeImm
+  split
+  · rename_i s hs
+    have hl := (List.getElem?_eq_some_iff.1 hs).1
+    by_cases hx : sid = x
+    · subst hx; simp [hs, List.getElem?_set_self hl]
+    · simp [List.getElem?_set_ne hx]
+  · rfl
+
+theorem storeBits_writeStore_ne (h : Heap) (sid : Nat) (g : Bits → Bits) (x : Nat) (hx : x ≠ sid) :
+    storeBits (writeStore h sid g) x = storeBits h x := by
+  unfold writeStore storeBits
+  split
+  · simp [List.getElem?_set_ne (Ne.symm hx)]
+  · rfl
+
+/-! ### building blocks for `WF` -/
+
+theorem WF.of_stores {h h' : Heap} (w : WF h) (hl : h.stores.length ≤ h'.stores.length)
+    (ho : h'.objs = h.objs) (hc : h'.cache = h.cache) (he : h'.exts = h.exts)
+    (h1 : ∀ e : String × Nat, e ∈ h.cache → storeImm h' e.2 = true)
+    (h2 : ∀ o : Obj, o ∈ h.objs → o.cls.isMutable = true → storeImm h' o.sid = false) : WF h' := by
+  obtain ⟨a1, a2, a3, a4, a5, a6, a7, a8, a9, a10⟩ := w
+  constructor <;> simp only [ho, hc, he] <;> try assumption
+  · intro o ho; have := a1 o ho; omega
+  · intro e he; have := a2 e he; omega
+  · intro s hs; have := a4 s hs; omega
+
+theorem WF.of_alloc {h : Heap} (w : WF h) (s : Store) : WF (alloc h s).1 := by
+  refine w.of_stores (by simp [alloc]) rfl rfl rfl ?_ ?_
+  · intro e he; rw [storeImm_alloc_old _ _ _ (w.cacheR e he)]; exact w.cacheImm e he
+  · intro o ho hm; rw [storeImm_alloc_old _ _ _ (w.objR o ho)]; exact w.mutImm o ho hm
+
+theorem WF.of_setImm {h : Heap} (w : WF h) (sid : Nat)
+    (hm : ∀ o : Obj, o ∈ h.objs → o.cls.isMutable = true → o.sid ≠ sid) : WF (setImm h sid) := by
+  refine w.of_stores (by rw [setImm_length]; exact Nat.le_refl _) (setImm_objs _ _) (setImm_cache _ _)
+    (setImm_exts _ _) ?_ ?_
+  · intro e he; exact storeImm_setImm_mono _ _ _ (w.cacheImm e he)
+  · intro o ho hmo; rw [storeImm_setImm_ne _ _ _ (hm o ho hmo)]; exact w.mutImm o ho hmo
+
+theorem WF.of_writeStore {h : Heap} (w : WF h) (sid : Nat) (g : Bits → Bits) : WF (writeStore h sid g) := by
+  refine w.of_stores (by rw [writeStore_length]; exact Nat.le_refl _) (writeStore_objs _ _ _)
+    (writeStore_cache _ _ _) (writeStore_exts _ _ _) ?_ ?_
+  · intro e he; rw [storeImm_writeStore]; exact w.cacheImm e he
+  · intro o ho hmo; rw [storeImm_writeStore]; exact w.mutImm o ho hmo
+
+/-- `sid` exists and is referenced by nothing. -/
+structure FreshIn (h : Heap) (sid : Nat) : Prop where
+  lt : sid < h.stores.length
+  objs : ∀ o : Obj, o ∈ h.objs → o.sid ≠ sid
+  cache : ∀ e : String × Nat, e ∈ h.cache → e.2 ≠ sid
+  exts : ∀ s : Nat, s ∈ h.exts → s ≠ sid
+
+theorem WF.fresh_alloc {h : Heap} (w : WF h) (s : Store) : FreshIn (alloc h s).1 h.stores.length := by
+  refine ⟨by simp [alloc], ?_, ?_, ?_⟩
+  · intro o ho; have := w.objR o ho; omega
+  · intro e he; have := w.cacheR e he; omega
+  · intro x hx; have := w.extR x hx; omega
+
+theorem WF.of_addObj {h h' : Heap} (w : WF h) (o : Obj) (hs : h'.stores = h.stores)
+    (ho : h'.objs = h.objs ++ [o]) (hc : h'.cache = h.cache) (he : h'.exts = h.exts)
+    (hlt : o.sid < h.stores.length)
+    (hext : ∀ s : Nat, s ∈ h.exts → s ≠ o.sid)
+    (hmut : ∀ o' : Obj, o' ∈ h.objs → o'.cls.isMutable = true → o'.sid ≠ o.sid)
+    (hnew : o.cls.isMutable = true →
+      (∀ o' : Obj, o' ∈ h.objs → o'.sid ≠ o.sid) ∧ (∀ e : String × Nat, e ∈ h.cache → e.2 ≠ o.sid) ∧
+      storeImm h o.sid = false) : WF h' := by
+  obtain ⟨a1, a2, a3, a4, a5, a6, a7, a8, a9, a10⟩ := w
+  have hi : ∀ x, storeImm h' x = storeImm h x := storeImm_congr hs
+  constructor <;> simp only [ho, hc, he, hs, hi] <;> try assumption
+  · intro o' ho'
+    rcases List.mem_append.1 ho' with h1 | h1
+    · exact a1 o' h1
+    · simp at h1; subst h1; exact hlt
+  · intro i j x y hx hy hm hxy
+    by_cases hi : i < h.objs.length <;> by_cases hj : j < h.objs.length
+    · rw [List.getElem?_append_left hi] at hx
+      rw [List.getElem?_append_left hj] at hy
+      exact a5 i j x y hx hy hm hxy
+    · rw [List.getElem?_append_left hi] at hx
+      rw [List.getElem?_append_right (Nat.le_of_not_lt hj)] at hy
+      have hy' : y = o := by
+        have := List.mem_of_getElem? hy; simpa using this
+      subst hy'
+      exact absurd hxy.symm (hmut x (List.mem_of_getElem? hx) hm)
+    · rw [List.getElem?_append_right (Nat.le_of_not_lt hi)] at hx
+      rw [List.getElem?_append_left hj] at hy
+      have hx' : x = o := by
+        have := List.mem_of_getElem? hx; simpa using this
+      subst hx'
+      exact absurd hxy ((hnew hm).1 y (List.mem_of_getElem? hy))
+    · rw [List.getElem?_append_right (Nat.le_of_not_lt hi)] at hx
+      rw [List.getElem?_append_right (Nat.le_of_not_lt hj)] at hy
+      have h1 : i - h.objs.length < 1 := by
+        have := (List.getElem?_eq_some_iff.1 hx).1; simpa using this
+      have h2 : j - h.objs.length < 1 := by
+        have := (List.getElem?_eq_some_iff.1 hy).1; simpa using this
+      omega
+  · intro o' ho' hm e hec
+    rcases List.mem_append.1 ho' with h1 | h1
+    · exact a6 o' h1 hm e hec
+    · simp at h1; subst h1; exact (hnew hm).2.1 e hec
+  · intro o' ho' hm
+    rcases List.mem_append.1 ho' with h1 | h1
+    · exact a7 o' h1 hm
+    · simp at h1; subst h1; exact (hnew hm).2.2
+  · intro o' ho' s hs'
+    rcases List.mem_append.1 ho' with h1 | h1
+    · exact a8 o' h1 s hs'
+    · simp at h1; subst h1; exact fun hc' => hext s hs' hc'.symm
+
+theorem WF.of_addObj_fresh {h : Heap} (w : WF h) (cls : Cls) (sid : Nat) (f : FreshIn h sid)
+    (himm : cls.isMutable = true → storeImm h sid = false) : WF (addObj h ⟨cls, sid⟩) :=
+  w.of_addObj ⟨cls, sid⟩ rfl rfl rfl rfl f.lt f.exts (fun o' ho' _ => f.objs o' ho')
+    (fun hm => ⟨f.objs, f.cache, himm hm⟩)
+
+theorem WF.of_alloc_addObj {h : Heap} (w : WF h) (cls : Cls) (b : Bits) :
+    WF (addObj (alloc h ⟨b, false⟩).1 ⟨cls, h.stores.length⟩) :=
+  (w.of_alloc _).of_addObj_fresh cls _ (w.fresh_alloc _) (fun _ => storeImm_alloc_new _ _)
+
+theorem WF.of_setObj {h h' : Heap} (w : WF h) (t : Nat) (cls : Cls) (sid : Nat) (hs : h'.stores = h.stores)
+    (ho : h'.objs = h.objs.set t ⟨cls, sid⟩) (hc : h'.cache = h.cache) (he : h'.exts = h.exts)
+    (f : FreshIn h sid) (himm : storeImm h sid = false) : WF h' := by
+  obtain ⟨a1, a2, a3, a4, a5, a6, a7, a8, a9, a10⟩ := w
+  have hi : ∀ x, storeImm h' x = storeImm h x := storeImm_congr hs
+  constructor <;> simp only [ho, hc, he, hs, hi] <;> try assumption
+  · intro o' ho'
+    rcases List.mem_or_eq_of_mem_set ho' with h1 | h1
+    · exact a1 o' h1
+    · subst h1; exact f.lt
+  · intro i j x y hx hy hm hxy
+    rw [List.getElem?_set] at hx hy
+    by_cases hi : t = i <;> by_cases hj : t = j
+    · omega
+    · simp only [hi, if_true] at hx
+      simp only [hj, if_false] at hy
+      split at hx
+      · simp at hx; subst hx
+        exact absurd hxy (f.objs y (List.mem_of_getElem? hy))
+      · simp at hx
+    · simp only [hi, if_false] at hx
+      simp only [hj, if_true] at hy
+      split at hy
+      · simp at hy; subst hy
+        exact absurd hxy.symm (f.objs x (List.mem_of_getElem? hx))
+      · simp at hy
+    · simp only [hi, if_false] at hx
+      simp only [hj, if_false] at hy
+      exact a5 i j x y hx hy hm hxy
+  · intro o' ho' hm e hec
+    rcases List.mem_or_eq_of_mem_set ho' with h1 | h1
+    · exact a6 o' h1 hm e hec
+    · subst h1; exact f.cache e hec
+  · intro o' ho' hm
+    rcases List.mem_or_eq_of_mem_set ho' with h1 | h1
+    · exact a7 o' h1 hm
+    · subst h1; exact himm
+  · intro o' ho' s hs'
+    rcases List.mem_or_eq_of_mem_set ho' with h1 | h1
+    · exact a8 o' h1 s hs'
+    · subst h1; exact fun hc' => f.exts s hs' hc'.symm
+
+theorem WF.of_addExt {h h' : Heap} (w : WF h) (sid : Nat) (hs : h'.stores = h.stores)
+    (ho : h'.objs = h.objs) (hc : h'.cache = h.cache) (he : h'.exts = h.exts ++ [sid])
+    (f : FreshIn h sid) : WF h' := by
+  obtain ⟨a1, a2, a3, a4, a5, a6, a7, a8, a9, a10⟩ := w
+  have hi : ∀ x, storeImm h' x = storeImm h x := storeImm_congr hs
+  constructor <;> simp only [ho, hc, he, hs, hi] <;> try assumption
+  · intro s hs'
+    rcases List.mem_append.1 hs' with h1 | h1
+    · exact a4 s h1
+    · simp at h1; subst h1; exact f.lt
+  · intro o ho' s hs'
+    rcases List.mem_append.1 hs' with h1 | h1
+    · exact a8 o ho' s h1
+    · simp at h1; subst h1; exact f.objs o ho'
+  · intro s hs' e hec
+    rcases List.mem_append.1 hs' with h1 | h1
+    · exact a9 s h1 e hec
+    · simp at h1; subst h1; exact f.cache e hec
+  · intro i j s hx hy
+    by_cases hi : i < h.exts.length <;> by_cases hj : j < h.exts.length
+    · rw [List.getElem?_append_left hi] at hx
+      rw [List.getElem?_append_left hj] at hy
+      exact a10 i j s hx hy
+    · rw [List.getElem?_append_left hi] at hx
+      rw [List.getElem?_append_right (Nat.le_of_not_lt hj)] at hy
+      have hy' : s = sid := by
+        have := List.mem_of_getElem? hy; simpa using this
+      subst hy'
+      exact absurd rfl (f.exts s (List.mem_of_getElem? hx))
+    · rw [List.getElem?_append_right (Nat.le_of_not_lt hi)] at hx
+      rw [List.getElem?_append_left hj] at hy
+      have hx' : s = sid := by
+        have := List.mem_of_getElem? hx; simpa using this
+      subst hx'
+      exact absurd rfl (f.exts s (List.mem_of_getElem? hy))
+    · rw [List.getElem?_append_right (Nat.le_of_not_lt hi)] at hx
+      rw [List.getElem?_append_right (Nat.le_of_not_lt hj)] at hy
+      have h1 : i - h.exts.length < 1 := by
+        have := (List.getElem?_eq_some_iff.1 hx).1; simpa using this
+      have h2 : j - h.exts.length < 1 := by
+        have := (List.getElem?_eq_some_iff.1 hy).1; simpa using this
+      omega
+
+theorem WF.of_addCache {h h' : Heap} (w : WF h) (key : String) (sid : Nat) (hs : h'.stores = h.stores)
+    (ho : h'.objs = h.objs) (hc : h'.cache = h.cache ++ [(key, sid)]) (he : h'.exts = h.exts)
+    (hlt : sid < h.stores.length) (himm : storeImm h sid = true)
+    (hext : ∀ s : Nat, s ∈ h.exts → s ≠ sid) : WF h' := by
+  obtain ⟨a1, a2, a3, a4, a5, a6, a7, a8, a9, a10⟩ := w
+  have hi : ∀ x, storeImm h' x = storeImm h x := storeImm_congr hs
+  constructor <;> simp only [ho, hc, he, hs, hi] <;> try assumption
+  · intro e hec
+    rcases List.mem_append.1 hec with h1 | h1
+    · exact a2 e h1
+    · simp at h1; subst h1; exact hlt
+  · intro e hec
+    rcases List.mem_append.1 hec with h1 | h1
+    · exact a3 e h1
+    · simp at h1; subst h1; exact himm
+  · intro o ho' hm e hec
+    rcases List.mem_append.1 hec with h1 | h1
+    · exact a6 o ho' hm e h1
+    · simp at h1; subst h1
+      intro hc'
+      have := a7 o ho' hm
+      simp only at hc'
+      rw [← hc', himm] at this
+      exact absurd this (by simp)
+  · intro s hs' e hec
+    rcases List.mem_append.1 hec with h1 | h1
+    · exact a9 s hs' e h1
+    · simp at h1; subst h1; exact fun hc' => hext s hs' hc'.symm
+
+
+/-! ### `initObj`, `cachedStore`, `step` preserve `WF` -/
+
+theorem WF.of_initObj {h : Heap} (w : WF h) (cls : Cls) (sid : Nat) (hlt : sid < h.stores.length)
+    (hmut : ∀ o : Obj, o ∈ h.objs → o.cls.isMutable = true → o.sid ≠ sid)
+    (hext : ∀ s : Nat, s ∈ h.exts → s ≠ sid)
+    (hfree : storeImm h sid = false →
+      (∀ o : Obj, o ∈ h.objs → o.sid ≠ sid) ∧ (∀ e : String × Nat, e ∈ h.cache → e.2 ≠ sid)) :
+    WF (initObj h cls sid) := by
+  have himmCase : ∀ c : Cls, c.isMutable = false → WF (addObj (setImm h sid) ⟨c, sid⟩) := by
+    intro c hc
+    refine (w.of_setImm sid hmut).of_addObj ⟨c, sid⟩ rfl rfl rfl rfl ?_ ?_ ?_ ?_
+    · rw [setImm_length]; exact hlt
+    · rw [setImm_exts]; exact hext
+    · rw [setImm_objs]; exact hmut
+    · intro hm; simp [hc] at hm
+  cases cls with
+  | bits => exact himmCase .bits rfl
+  | constBitStream => exact himmCase .constBitStream rfl
+  | bitArray =>
+    unfold initObj
+    by_cases hi : storeImm h sid = true
+    · simp only [hi, if_true]
+      exact w.of_alloc_addObj _ _
+    · simp only [hi]
+      have hi' : storeImm h sid = false := by simpa using hi
+      exact w.of_addObj ⟨.bitArray, sid⟩ rfl rfl rfl rfl hlt hext hmut
+        (fun _ => ⟨(hfree hi').1, (hfree hi').2, hi'⟩)
+  | bitStream =>
+    exact (w.of_setImm sid hmut).of_alloc_addObj _ _
+
+theorem WF.of_initObj_fresh {h : Heap} (w : WF h) (cls : Cls) (sid : Nat) (f : FreshIn h sid) :
+    WF (initObj h cls sid) :=
+  w.of_initObj cls sid f.lt (fun o ho _ => f.objs o ho) f.exts (fun _ => ⟨f.objs, f.cache⟩)
+
+theorem WF.of_initObj_imm {h : Heap} (w : WF h) (cls : Cls) (sid : Nat) (hlt : sid < h.stores.length)
+    (himm : storeImm h sid = true) (hext : ∀ s : Nat, s ∈ h.exts → s ≠ sid) :
+    WF (initObj h cls sid) := by
+  refine w.of_initObj cls sid hlt ?_ hext ?_
+  · intro o ho hm hs
+    have := w.mutImm o ho hm
+    rw [hs, himm] at this; exact absurd this (by simp)
+  · intro hf; rw [himm] at hf; exact absurd hf (by simp)
+
+theorem cacheLookup_mem {h : Heap} {key : String} {sid : Nat} (hc : cacheLookup h key = some sid) :
+    (key, sid) ∈ h.cache := by
+  unfold cacheLookup at hc
+  cases hf : h.cache.find? (fun x => decide (x.1 = key)) with
+  | none => simp [hf] at hc
+  | some e =>
+    simp [hf] at hc
+    have h1 := List.find?_some hf
+    have h2 := List.mem_of_find?_eq_some hf
+    simp at h1
+    obtain ⟨a, b⟩ := e
+    simp at h1 hc; subst h1; subst hc; exact h2
+
+/-- What `cachedStore` guarantees about the store it returns. -/
+theorem WF.of_cachedStore {h : Heap} (w : WF h) (key : String) (b : Bits) :
+    WF (cachedStore h key b).1 ∧ (cachedStore h key b).2 < (cachedStore h key b).1.stores.length ∧
+    storeImm (cachedStore h key b).1 (cachedStore h key b).2 = true ∧
+    (∀ s : Nat, s ∈ (cachedStore h key b).1.exts → s ≠ (cachedStore h key b).2) := by
+  unfold cachedStore
+  cases hc : cacheLookup h key with
+  | some sid =>
+    have hm := cacheLookup_mem hc
+    exact ⟨w, w.cacheR _ hm, w.cacheImm _ hm, fun s hs hss => w.extCache s hs _ hm hss.symm⟩
+  | none =>
+    have f := w.fresh_alloc ⟨b, true⟩
+    refine ⟨?_, f.lt, storeImm_alloc_new h ⟨b, true⟩, f.exts⟩
+    exact (w.of_alloc ⟨b, true⟩).of_addCache key h.stores.length rfl rfl rfl rfl f.lt
+      (storeImm_alloc_new h ⟨b, true⟩) f.exts
+
+theorem WF.of_step {h : Heap} (w : WF h) (op : Op) : WF (step h op) := by
+  cases op with
+  | new cls b =>
+    exact (w.of_alloc _).of_initObj_fresh cls _ (w.fresh_alloc _)
+  | fromStr cls key b =>
+    obtain ⟨w1, h1, h2, h3⟩ := w.of_cachedStore key b
+    exact w1.of_initObj_imm cls _ h1 h2 h3
+  | fromstring cls key b =>
+    obtain ⟨w1, h1, h2, h3⟩ := w.of_cachedStore key b
+    show WF (if cls.isMutable then _ else _)
+    split
+    · exact w1.of_alloc_addObj _ _
+    · rename_i hm
+      refine w1.of_addObj ⟨cls, (cachedStore h key b).2⟩ rfl rfl rfl rfl h1 h3 ?_ (fun hm' => absurd hm' hm)
+      intro o ho hmo hs
+      have hs : o.sid = (cachedStore h key b).2 := hs
+      have := w1.mutImm o ho hmo
+      rw [hs, h2] at this; exact absurd this (by simp)
+  | fromObj cls src =>
+    simp only [step]
+    cases hs : h.objs[src]? with
+    | none => exact w
+    | some o =>
+      have ho := List.mem_of_getElem? hs
+      simp only []
+      unfold storeCopy
+      by_cases hi : storeImm h o.sid = true
+      · simp only [hi, if_true]
+        exact w.of_initObj_imm cls _ (w.objR o ho) hi (fun s hs' hss => w.objExt o ho s hs' hss.symm)
+      · simp only [hi]
+        exact (w.of_alloc _).of_initObj_fresh cls _ (w.fresh_alloc _)
+  | bitsKw cls src =>
+    simp only [step]
+    cases hs : h.objs[src]? with
+    | none => exact w
+    | some o => exact (w.of_alloc _).of_initObj_fresh cls _ (w.fresh_alloc _)
+  | assignBits dst src =>
+    simp only [step]
+    cases hd : h.objs[dst]? with
+    | none => exact w
+    | some d =>
+      cases hs : h.objs[src]? with
+      | none => exact w
+      | some o =>
+        simp only []
+        split
+        · exact (w.of_alloc _).of_setObj dst d.cls h.stores.length rfl rfl rfl rfl (w.fresh_alloc _)
+            (storeImm_alloc_new _ _)
+        · exact w
+  | build src =>
+    simp only [step]
+    cases hs : h.objs[src]? with
+    | none => exact w
+    | some o => exact w.of_alloc_addObj _ _
+  | copyM src =>
+    simp only [step]
+    cases hs : h.objs[src]? with
+    | none => exact w
+    | some o =>
+      have ho := List.mem_of_getElem? hs
+      simp only []
+      split
+      · exact w.of_alloc_addObj _ _
+      · rename_i hm
+        exact w.of_addObj o rfl rfl rfl rfl (w.objR o ho) (fun s hs' hss => w.objExt o ho s hs' hss.symm)
+          (fun o' ho' hm' hss => by
+            obtain ⟨i, hi⟩ := List.getElem?_of_mem ho'
+            have := w.mutUniq i src o' o hi hs hm' hss.symm
+            subst this; rw [hi] at hs; cases hs; exact hm hm')
+          (fun hm' => absurd hm' hm)
+  | copyCopy src =>
+    simp only [step]
+    cases hs : h.objs[src]? with
+    | none => exact w
+    | some o =>
+      have ho := List.mem_of_getElem? hs
+      simp only []
+      split
+      · exact w.of_alloc_addObj _ _
+      · rename_i hm
+        exact w.of_addObj o rfl rfl rfl rfl (w.objR o ho) (fun s hs' hss => w.objExt o ho s hs' hss.symm)
+          (fun o' ho' hm' hss => by
+            obtain ⟨i, hi⟩ := List.getElem?_of_mem ho'
+            have := w.mutUniq i src o' o hi hs hm' hss.symm
+            subst this; rw [hi] at hs; cases hs; exact hm hm')
+          (fun hm' => absurd hm' hm)
+  | selfOp src =>
+    simp only [step]
+    cases hs : h.objs[src]? with
+    | none => exact w
+    | some o =>
+      have ho := List.mem_of_getElem? hs
+      simp only []
+      split
+      · exact w.of_alloc_addObj _ _
+      · rename_i hm
+        exact w.of_addObj o rfl rfl rfl rfl (w.objR o ho) (fun s hs' hss => w.objExt o ho s hs' hss.symm)
+          (fun o' ho' hm' hss => by
+            obtain ⟨i, hi⟩ := List.getElem?_of_mem ho'
+            have := w.mutUniq i src o' o hi hs hm' hss.symm
+            subst this; rw [hi] at hs; cases hs; exact hm hm')
+          (fun hm' => absurd hm' hm)
+  | derive cls src g =>
+    simp only [step]
+    cases hs : h.objs[src]? with
+    | none => exact w
+    | some o => exact w.of_alloc_addObj _ _
+  | fromExt cls b g =>
+    have w1 := w.of_alloc ⟨b, false⟩
+    have f1 := w.fresh_alloc ⟨b, false⟩
+    have w2 : WF { (alloc h ⟨b, false⟩).1 with exts := (alloc h ⟨b, false⟩).1.exts ++ [h.stores.length] } :=
+      w1.of_addExt h.stores.length rfl rfl rfl rfl f1
+    exact (w2.of_alloc _).of_initObj_fresh cls _ (w2.fresh_alloc _)
+  | toExt src =>
+    simp only [step]
+    cases hs : h.objs[src]? with
+    | none => exact w
+    | some o =>
+      exact (w.of_alloc _).of_addExt h.stores.length rfl rfl rfl rfl (w.fresh_alloc _)
+  | mutate obj g =>
+    simp only [step]
+    cases hs : h.objs[obj]? with
+    | none => exact w
+    | some o =>
+      simp only []
+      split
+      · exact w.of_writeStore _ _
+      · exact w
+  | rebind obj g =>
+    simp only [step]
+    cases hs : h.objs[obj]? with
+    | none => exact w
+    | some o =>
+      simp only []
+      split
+      · exact (w.of_alloc _).of_setObj obj o.cls h.stores.length rfl rfl rfl rfl (w.fresh_alloc _)
+          (storeImm_alloc_new _ _)
+      · exact w
+  | mutateExt k g =>
+    simp only [step]
+    cases hs : h.exts[k]? with
+    | none => exact w
+    | some sid => exact w.of_writeStore _ _
+
+
+/-! ### frames: what a step can change -/
+
+/-- The object an operation is aimed at (same as `targets` in Props/C04). -/
+def tgt : Op → Option Nat
+  | .mutate t _ => some t
+  | .rebind t _ => some t
+  | .assignBits d _ => some d
+  | _ => none
+
+/-- The only store whose bits an operation overwrites. -/
+def writes (h : Heap) : Op → Option Nat
+  | .mutate t _ =>
+    match h.objs[t]? with
+    | some o => if o.cls.isMutable then some o.sid else none
+    | none => none
+  | .mutateExt k _ => h.exts[k]?
+  | _ => none
+
+/-- `h'` extends `h`: existing stores keep their bits except `wr`, existing objects keep their store except
+    `tg` (which keeps its class), cache and exts are only appended to. -/
+structure Frame (h h' : Heap) (wr tg : Option Nat) : Prop where
+  len : h.stores.length ≤ h'.stores.length
+  bits : ∀ x : Nat, x < h.stores.length → wr ≠ some x → storeBits h' x = storeBits h x
+  objs : ∀ j : Nat, j < h.objs.length → tg ≠ some j → h'.objs[j]? = h.objs[j]?
+  objsCls : ∀ (j : Nat) (o : Obj), h.objs[j]? = some o → ∃ o', h'.objs[j]? = some o' ∧ o'.cls = o.cls
+  cache : ∃ c, h'.cache = h.cache ++ c
+  exts : ∃ e, h'.exts = h.exts ++ e
+
+theorem Frame.of_append {h h' : Heap} {wr tg : Option Nat} (hl : h.stores.length ≤ h'.stores.length)
+    (hb : ∀ x : Nat, x < h.stores.length → wr ≠ some x → storeBits h' x = storeBits h x)
+    (ho : ∃ l, h'.objs = h.objs ++ l) (hc : ∃ c, h'.cache = h.cache ++ c)
+    (he : ∃ e, h'.exts = h.exts ++ e) : Frame h h' wr tg := by
+  obtain ⟨l, ho⟩ := ho
+  refine ⟨hl, hb, ?_, ?_, hc, he⟩
+  · intro j hj _; rw [ho, List.getElem?_append_left hj]
+  · intro j o hj
+    have hlt := (List.getElem?_eq_some_iff.1 hj).1
+    exact ⟨o, by rw [ho, List.getElem?_append_left hlt]; exact hj, rfl⟩
+
+theorem Frame.refl (h : Heap) (wr tg : Option Nat) : Frame h h wr tg :=
+  Frame.of_append (Nat.le_refl _) (fun _ _ _ => rfl) ⟨[], by simp⟩ ⟨[], by simp⟩ ⟨[], by simp⟩
+
+theorem Frame.mono {h h' : Heap} (f : Frame h h' none none) (wr tg : Option Nat) : Frame h h' wr tg :=
+  ⟨f.len, fun x hx _ => f.bits x hx (by simp), fun j hj _ => f.objs j hj (by simp), f.objsCls, f.cache, f.exts⟩
+
+theorem Frame.trans {h h1 h2 : Heap} {wr tg : Option Nat} (f : Frame h h1 wr tg) (g : Frame h1 h2 wr tg) :
+    Frame h h2 wr tg := by
+  refine ⟨Nat.le_trans f.len g.len, ?_, ?_, ?_, ?_, ?_⟩
+  · intro x hx hw
+    rw [g.bits x (Nat.lt_of_lt_of_le hx f.len) hw, f.bits x hx hw]
+  · intro j hj ht
+    have hj1 : j < h1.objs.length := by
+      obtain ⟨o', ho', _⟩ := f.objsCls j h.objs[j] (List.getElem?_eq_getElem hj)
+      exact (List.getElem?_eq_some_iff.1 ho').1
+    rw [g.objs j hj1 ht, f.objs j hj ht]
+  · intro j o hj
+    obtain ⟨o1, ho1, hc1⟩ := f.objsCls j o hj
+    obtain ⟨o2, ho2, hc2⟩ := g.objsCls j o1 ho1
+    exact ⟨o2, ho2, hc2.trans hc1⟩
+  · obtain ⟨c1, hc1⟩ := f.cache
+    obtain ⟨c2, hc2⟩ := g.cache
+    exact ⟨c1 ++ c2, by rw [hc2, hc1, List.append_assoc]⟩
+  · obtain ⟨c1, hc1⟩ := f.exts
+    obtain ⟨c2, hc2⟩ := g.exts
+    exact ⟨c1 ++ c2, by rw [hc2, hc1, List.append_assoc]⟩
+
+theorem Frame.of_alloc (h : Heap) (s : Store) (wr tg : Option Nat) : Frame h (alloc h s).1 wr tg :=
+  Frame.of_append (by simp [alloc]) (fun x hx _ => storeBits_alloc_old h s x hx)
+    ⟨[], by simp [alloc]⟩ ⟨[], by simp [alloc]⟩ ⟨[], by simp [alloc]⟩
+
+theorem Frame.of_setImm (h : Heap) (sid : Nat) (wr tg : Option Nat) : Frame h (setImm h sid) wr tg :=
+  Frame.of_append (by rw [setImm_length]; exact Nat.le_refl _) (fun x _ _ => storeBits_setImm h sid x)
+    ⟨[], by simp [setImm_objs]⟩ ⟨[], by simp [setImm_cache]⟩ ⟨[], by simp [setImm_exts]⟩
+
+theorem Frame.of_addObj (h : Heap) (o : Obj) (wr tg : Option Nat) : Frame h (addObj h o) wr tg :=
+  Frame.of_append (Nat.le_refl _) (fun _ _ _ => rfl) ⟨[o], rfl⟩ ⟨[], by simp [addObj]⟩ ⟨[], by simp [addObj]⟩
+
+theorem Frame.of_writeStore (h : Heap) (sid : Nat) (g : Bits → Bits) (tg : Option Nat) :
+    Frame h (writeStore h sid g) (some sid) tg :=
+  Frame.of_append (by rw [writeStore_length]; exact Nat.le_refl _)
+    (fun x _ hw => storeBits_writeStore_ne h sid g x (fun hx => hw (by rw [hx])))
+    ⟨[], by simp [writeStore_objs]⟩ ⟨[], by simp [writeStore_cache]⟩ ⟨[], by simp [writeStore_exts]⟩
+
+theorem Frame.of_setObj {h h' : Heap} (t : Nat) (d : Obj) (sid : Nat) (hd : h.objs[t]? = some d)
+    (hs : h'.stores = h.stores) (ho : h'.objs = h.objs.set t ⟨d.cls, sid⟩) (hc : h'.cache = h.cache)
+    (he : h'.exts = h.exts) (wr : Option Nat) : Frame h h' wr (some t) := by
+  refine ⟨by rw [hs]; exact Nat.le_refl _, fun x _ _ => storeBits_congr hs x, ?_, ?_, ⟨[], by simp [hc]⟩,
+    ⟨[], by simp [he]⟩⟩
+  · intro j _ ht
+    have : t ≠ j := fun e => ht (by rw [e])
+    rw [ho, List.getElem?_set_ne this]
+  · intro j o hj
+    by_cases htj : t = j
+    · subst htj
+      rw [hd] at hj; cases hj
+      have hlt := (List.getElem?_eq_some_iff.1 hd).1
+      exact ⟨⟨d.cls, sid⟩, by rw [ho, List.getElem?_set_self hlt], rfl⟩
+    · exact ⟨o, by rw [ho, List.getElem?_set_ne htj]; exact hj, rfl⟩
+
+theorem Frame.of_initObj (h : Heap) (cls : Cls) (sid : Nat) (wr tg : Option Nat) :
+    Frame h (initObj h cls sid) wr tg := by
+  cases cls with
+  | bits => exact (Frame.of_setImm h sid wr tg).trans (Frame.of_addObj _ _ wr tg)
+  | constBitStream => exact (Frame.of_setImm h sid wr tg).trans (Frame.of_addObj _ _ wr tg)
+  | bitArray =>
+    unfold initObj
+    by_cases hi : storeImm h sid = true
+    · simp only [hi, if_true]
+      exact (Frame.of_alloc h _ wr tg).trans (Frame.of_addObj _ _ wr tg)
+    · simp only [hi]
+      exact Frame.of_addObj _ _ wr tg
+  | bitStream =>
+    exact ((Frame.of_setImm h sid wr tg).trans (Frame.of_alloc _ _ wr tg)).trans (Frame.of_addObj _ _ wr tg)
+
+theorem Frame.of_cachedStore (h : Heap) (key : String) (b : Bits) (wr tg : Option Nat) :
+    Frame h (cachedStore h key b).1 wr tg := by
+  unfold cachedStore
+  cases hc : cacheLookup h key with
+  | some sid => exact Frame.refl h wr tg
+  | none =>
+    refine (Frame.of_alloc h ⟨b, true⟩ wr tg).trans ?_
+    exact Frame.of_append (Nat.le_refl _) (fun _ _ _ => rfl) ⟨[], by simp⟩ ⟨[(key, h.stores.length)], rfl⟩
+      ⟨[], by simp⟩
+
+theorem Frame.of_step (h : Heap) (op : Op) : Frame h (step h op) (writes h op) (tgt op) := by
+  cases op with
+  | new cls b => exact (Frame.of_alloc h _ _ _).trans (Frame.of_initObj _ _ _ _ _)
+  | fromStr cls key b => exact (Frame.of_cachedStore h key b _ _).trans (Frame.of_initObj _ _ _ _ _)
+  | fromstring cls key b =>
+    refine (Frame.of_cachedStore h key b _ _).trans ?_
+    show Frame _ (if cls.isMutable then _ else _) _ _
+    split
+    · exact (Frame.of_alloc _ _ _ _).trans (Frame.of_addObj _ _ _ _)
+    · exact Frame.of_addObj _ _ _ _
+  | fromObj cls src =>
+    simp only [step]
+    cases hs : h.objs[src]? with
+    | none => exact Frame.refl _ _ _
+    | some o =>
+      simp only []
+      unfold storeCopy
+      by_cases hi : storeImm h o.sid = true
+      · simp only [hi, if_true]
+        exact Frame.of_initObj _ _ _ _ _
+      · simp only [hi]
+        exact (Frame.of_alloc h _ _ _).trans (Frame.of_initObj _ _ _ _ _)
+  | bitsKw cls src =>
+    simp only [step]
+    cases hs : h.objs[src]? with
+    | none => exact Frame.refl _ _ _
+    | some o => exact (Frame.of_alloc h _ _ _).trans (Frame.of_initObj _ _ _ _ _)
+  | assignBits dst src =>
+    simp only [step]
+    cases hd : h.objs[dst]? with
+    | none => exact Frame.refl _ _ _
+    | some d =>
+      cases hs : h.objs[src]? with
+      | none => exact Frame.refl _ _ _
+      | some o =>
+        simp only []
+        split
+        · refine Frame.trans (Frame.of_alloc h ⟨storeBits h o.sid, false⟩ _ _)
+            (Frame.of_setObj dst d h.stores.length
+              (show (alloc h ⟨storeBits h o.sid, false⟩).1.objs[dst]? = some d from hd) ?_ ?_ ?_ ?_ _) <;> rfl
+        · exact Frame.refl _ _ _
+  | build src =>
+    simp only [step]
+    cases hs : h.objs[src]? with
+    | none => exact Frame.refl _ _ _
+    | some o => exact (Frame.of_alloc h _ _ _).trans (Frame.of_addObj _ _ _ _)
+  | copyM src =>
+    simp only [step]
+    cases hs : h.objs[src]? with
+    | none => exact Frame.refl _ _ _
+    | some o =>
+      simp only []
+      split
+      · exact (Frame.of_alloc h _ _ _).trans (Frame.of_addObj _ _ _ _)
+      · exact Frame.of_addObj _ _ _ _
+  | copyCopy src =>
+    simp only [step]
+    cases hs : h.objs[src]? with
+    | none => exact Frame.refl _ _ _
+    | some o =>
+      simp only []
+      split
+      · exact (Frame.of_alloc h _ _ _).trans (Frame.of_addObj _ _ _ _)
+      · exact Frame.of_addObj _ _ _ _
+  | selfOp src =>
+    simp only [step]
+    cases hs : h.objs[src]? with
+    | none => exact Frame.refl _ _ _
+    | some o =>
+      simp only []
+      split
+      · exact (Frame.of_alloc h _ _ _).trans (Frame.of_addObj _ _ _ _)
+      · exact Frame.of_addObj _ _ _ _
+  | derive cls src g =>
+    simp only [step]
+    cases hs : h.objs[src]? with
+    | none => exact Frame.refl _ _ _
+    | some o => exact (Frame.of_alloc h _ _ _).trans (Frame.of_addObj _ _ _ _)
+  | fromExt cls b g =>
+    refine (Frame.of_alloc h ⟨b, false⟩ _ _).trans ?_
+    refine Frame.trans (h1 := { (alloc h ⟨b, false⟩).1 with
+      exts := (alloc h ⟨b, false⟩).1.exts ++ [h.stores.length] }) ?_ ?_
+    · exact Frame.of_append (Nat.le_refl _) (fun _ _ _ => rfl) ⟨[], by simp⟩ ⟨[], by simp⟩ ⟨[_], rfl⟩
+    · exact (Frame.of_alloc _ _ _ _).trans (Frame.of_initObj _ _ _ _ _)
+  | toExt src =>
+    simp only [step]
+    cases hs : h.objs[src]? with
+    | none => exact Frame.refl _ _ _
+    | some o =>
+      refine (Frame.of_alloc h ⟨storeBits h o.sid, false⟩ _ _).trans ?_
+      exact Frame.of_append (Nat.le_refl _) (fun _ _ _ => rfl) ⟨[], (List.append_nil _).symm⟩
+        ⟨[], (List.append_nil _).symm⟩ ⟨[_], rfl⟩
+  | mutate obj g =>
+    simp only [step, writes]
+    cases hs : h.objs[obj]? with
+    | none => exact Frame.refl _ _ _
+    | some o =>
+      simp only []
+      split
+      · exact Frame.of_writeStore _ _ _ _
+      · exact Frame.refl _ _ _
+  | rebind obj g =>
+    simp only [step]
+    cases hs : h.objs[obj]? with
+    | none => exact Frame.refl _ _ _
+    | some o =>
+      simp only []
+      split
+      · refine Frame.trans (Frame.of_alloc h ⟨g (storeBits h o.sid), false⟩ _ _)
+          (Frame.of_setObj obj o h.stores.length
+            (show (alloc h ⟨g (storeBits h o.sid), false⟩).1.objs[obj]? = some o from hs) ?_ ?_ ?_ ?_ _) <;> rfl
+      · exact Frame.refl _ _ _
+  | mutateExt k g =>
+    simp only [step, writes]
+    cases hs : h.exts[k]? with
+    | none => exact Frame.refl _ _ _
+    | some sid => exact Frame.of_writeStore _ _ _ _
+
+
+/-! ### consequences -/
+
+theorem WF.writes_ne_obj {h : Heap} (w : WF h) (op : Op) (j : Nat) (o : Obj) (hj : h.objs[j]? = some o)
+    (ht : tgt op ≠ some j) : writes h op ≠ some o.sid := by
+  cases op <;> try (simp [writes]; done)
+  case mutate t g =>
+    simp only [writes]
+    cases hs : h.objs[t]? with
+    | none => simp
+    | some o' =>
+      simp only []
+      split
+      · rename_i hm
+        intro he
+        have he : o'.sid = o.sid := by simpa using he
+        have := w.mutUniq t j o' o hs hj hm he.symm
+        exact ht (by simp [tgt, this])
+      · simp
+  case mutateExt k g =>
+    simp only [writes]
+    intro he
+    exact w.objExt o (List.mem_of_getElem? hj) o.sid (List.mem_of_getElem? he) rfl
+
+theorem WF.writes_ne_cache {h : Heap} (w : WF h) (op : Op) (e : String × Nat) (he : e ∈ h.cache) :
+    writes h op ≠ some e.2 := by
+  cases op <;> try (simp [writes]; done)
+  case mutate t g =>
+    simp only [writes]
+    cases hs : h.objs[t]? with
+    | none => simp
+    | some o' =>
+      simp only []
+      split
+      · rename_i hm
+        intro hh
+        have hh : o'.sid = e.2 := by simpa using hh
+        exact w.mutCache o' (List.mem_of_getElem? hs) hm e he hh.symm
+      · simp
+  case mutateExt k g =>
+    simp only [writes]
+    intro hh
+    exact w.extCache e.2 (List.mem_of_getElem? hh) e he rfl
+
+theorem WF.writes_mutate_ne_ext {h : Heap} (w : WF h) (t : Nat) (g : Bits → Bits) (s : Nat) (hs : s ∈ h.exts) :
+    writes h (.mutate t g) ≠ some s := by
+  simp only [writes]
+  cases ho : h.objs[t]? with
+  | none => simp
+  | some o' =>
+    simp only []
+    split
+    · intro hh
+      have hh : o'.sid = s := by simpa using hh
+      exact w.objExt o' (List.mem_of_getElem? ho) s hs hh
+    · simp
+
+theorem step_value_frame {h : Heap} (w : WF h) (op : Op) (j : Nat) (hj : j < h.objs.length)
+    (ht : tgt op ≠ some j) : value (step h op) j = value h j := by
+  have f := Frame.of_step h op
+  unfold value
+  rw [f.objs j hj ht]
+  cases ho : h.objs[j]? with
+  | none => rfl
+  | some o =>
+    simp only [Option.map_some]
+    rw [f.bits o.sid (w.objR o (List.mem_of_getElem? ho)) (w.writes_ne_obj op j o ho ht)]
+
+theorem cacheLookup_append {h h' : Heap} (c : List (String × Nat)) (hc : h'.cache = h.cache ++ c)
+    (key : String) (sid : Nat) (hl : cacheLookup h key = some sid) : cacheLookup h' key = some sid := by
+  unfold cacheLookup at *
+  rw [hc, List.find?_append]
+  cases hf : h.cache.find? (fun x => decide (x.1 = key)) with
+  | none => simp [hf] at hl
+  | some e => simpa [hf] using hl
+
+theorem step_cache_frame {h : Heap} (w : WF h) (op : Op) (key : String) (sid : Nat)
+    (hl : cacheLookup h key = some sid) :
+    cacheLookup (step h op) key = some sid ∧ storeBits (step h op) sid = storeBits h sid := by
+  have f := Frame.of_step h op
+  obtain ⟨c, hc⟩ := f.cache
+  have hm := cacheLookup_mem hl
+  exact ⟨cacheLookup_append c hc key sid hl,
+    f.bits sid (w.cacheR _ hm) (w.writes_ne_cache op (key, sid) hm)⟩
+
+theorem step_cacheValue {h : Heap} (w : WF h) (op : Op) (key : String) (b : Bits)
+    (hc : cacheValue h key = some b) : cacheValue (step h op) key = some b := by
+  unfold cacheValue at *
+  cases hl : cacheLookup h key with
+  | none => simp [hl] at hc
+  | some sid =>
+    obtain ⟨h1, h2⟩ := step_cache_frame w op key sid hl
+    rw [h1]; rw [hl] at hc
+    simpa [h2] using hc
+
+theorem cacheLookup_congr {h h' : Heap} (hc : h'.cache = h.cache) (key : String) :
+    cacheLookup h' key = cacheLookup h key := by unfold cacheLookup; rw [hc]
+
+theorem step_mutate_objs (h : Heap) (t : Nat) (g : Bits → Bits) : (step h (.mutate t g)).objs = h.objs := by
+  simp only [step]; split
+  · rfl
+  · split
+    · exact writeStore_objs _ _ _
+    · rfl
+
+theorem step_mutate_cache (h : Heap) (t : Nat) (g : Bits → Bits) : (step h (.mutate t g)).cache = h.cache := by
+  simp only [step]; split
+  · rfl
+  · split
+    · exact writeStore_cache _ _ _
+    · rfl
+
+theorem step_mutate_exts (h : Heap) (t : Nat) (g : Bits → Bits) : (step h (.mutate t g)).exts = h.exts := by
+  simp only [step]; split
+  · rfl
+  · split
+    · exact writeStore_exts _ _ _
+    · rfl
+
+theorem step_mutateExt_objs (h : Heap) (k : Nat) (g : Bits → Bits) :
+    (step h (.mutateExt k g)).objs = h.objs := by
+  simp only [step]; split
+  · rfl
+  · exact writeStore_objs _ _ _
+
+theorem step_mutateExt_cache (h : Heap) (k : Nat) (g : Bits → Bits) :
+    (step h (.mutateExt k g)).cache = h.cache := by
+  simp only [step]; split
+  · rfl
+  · exact writeStore_cache _ _ _
+
+/-- A write-only step leaves every cache value (present or absent) as it was. -/
+theorem cacheValue_of_cache_eq {h : Heap} (w : WF h) (op : Op) (hc : (step h op).cache = h.cache)
+    (key : String) : cacheValue (step h op) key = cacheValue h key := by
+  unfold cacheValue
+  rw [cacheLookup_congr hc]
+  cases hl : cacheLookup h key with
+  | none => rfl
+  | some sid =>
+    simp only [Option.map_some]
+    rw [(step_cache_frame w op key sid hl).2]
+
+theorem WF.of_run {h : Heap} (w : WF h) (ops : List Op) : WF (run h ops) := by
+  induction ops generalizing h with
+  | nil => exact w
+  | cons op ops ih => exact ih (w.of_step op)
+
+theorem wf_empty : WF {} := by
+  constructor <;> simp
+
 end BM.C04
